@@ -210,11 +210,14 @@ pub fn seq_campaigns(property: &str) -> Vec<SeqCampaign> {
             main("seq-main", 4000, 80_000, nt_c08, RULE_C08),
             probe("probe-F7", profile("C08"), Policy { allow_upsert_on_dead_entry: true, ..Policy::default() }),
         ],
-        "C09" => vec![main("seq-main", 4000, 80_000, nt_c09, RULE_C09)],
+        "C09" => vec![main("seq-main", 4000, 80_000, nt_c09, RULE_C09), SeqCampaign { name: "seq-upsert-expired", params: profile("C09"), policy: Policy { allow_upsert_on_dead_entry: true, ..Policy::default() }, cases_quick: 2000, cases_thorough: 30_000, nt: |s| s.upserts_in_place >= 2 && s.swept_keys >= 1,
+                rule: "as seq-main, but put_or_update is also generated for keys that are past their time-to-live and not yet swept, or deleted with the delete still queued (the loss of such an upsert, known finding F7 of C08, is noted and does not end the case): an upsert that gives such a key a new time-to-live makes it readable again until the new deadline, and the sweep of the old deadline must not remove it; non-trivial = >= 2 in-place upserts and a sweep that removed a key" }],
         "C10" => vec![
             main("seq-main", 1500, 30_000, nt_c10, RULE_C10),
             SeqCampaign { name: "seq-reput-expired", params: profile("C10"), policy: Policy { allow_put_on_expired_unswept: true, ..Policy::default() }, cases_quick: 1500, cases_thorough: 20_000, nt: |s| s.swept_keys >= 1 && s.puts_on_used_key >= 1,
                 rule: "as seq-main, but puts of keys that are past their time-to-live and not yet swept are generated too (their refusal, known finding F6 of C07, is noted and does not end the case): a re-put that is accepted must survive the sweep of the old incarnation; non-trivial = a sweep removed a key and a previously written key was put again" },
+            SeqCampaign { name: "seq-upsert-expired", params: profile("C09"), policy: Policy { allow_upsert_on_dead_entry: true, ..Policy::default() }, cases_quick: 2000, cases_thorough: 30_000, nt: |s| s.upserts_in_place >= 2 && s.swept_keys >= 1,
+                rule: "as seq-main, but put_or_update is also generated for keys that are past their time-to-live and not yet swept, or deleted with the delete still queued (the loss of such an upsert, known finding F7 of C08, is noted and does not end the case): an upsert that gives such a key a new time-to-live makes it readable again until the new deadline, and the sweep of the old deadline must not remove it; non-trivial = >= 2 in-place upserts and a sweep that removed a key" },
         ],
         "C11" => vec![main("seq-bursts", 3000, 50_000, nt_c11, RULE_C11)],
         "C13" => vec![SeqCampaign { name: "seq-after-shutdown", params: profile("C05"), policy: Policy::default(), cases_quick: 1500, cases_thorough: 20_000, nt: |s| s.accepted_puts >= 1 && s.writes >= 3,
